@@ -288,9 +288,11 @@ def extendTransitions (z : Zone) : Ck (Option Zone) := do
 
 /-! ## Load -/
 
-/-- the search for the before-first-transition type with its 8-bit index (`std::uint_fast8_t`,
-one byte on x86-64 glibc): the code has no variant when `typecnt ≥ 256`, so the model uses fuel -/
-def defaultTypeSearch (types : Array TransitionType) (typecnt : Nat) (first : Nat) : Ck Nat :=
+/-- the search for the before-first-transition type: a `std::size_t` index over the at most 256
+types an 8-bit type index can name (`typecnt = min(hdr.typecnt, 256)`).  The loops have the
+obvious variants; the model still counts fuel so that "fuel is never exhausted" is a theorem. -/
+def defaultTypeSearch (types : Array TransitionType) (hdrTypecnt : Nat) (first : Nat) : Ck (Nat × Nat) :=
+  let typecnt := min hdrTypecnt 256
   let isDst (i : Nat) : Bool := (types[i]?.map (·.isDst)).getD false
   let rec down (i : Nat) (fuel : Nat) : Nat :=
     match fuel with
@@ -299,8 +301,8 @@ def defaultTypeSearch (types : Array TransitionType) (typecnt : Nat) (first : Na
   let rec up (i : Nat) (fuel : Nat) : Ck Nat :=
     match fuel with
     | 0 => ⟨i, flagFuel⟩
-    | fuel + 1 => if i ≠ typecnt ∧ isDst i then up ((i + 1) % 256) fuel else pure i
-  if isDst 0 then up (down first 256) 1024 else up 0 1024
+    | fuel + 1 => if i ≠ typecnt ∧ isDst i then up (i + 1) fuel else pure i
+  (if isDst 0 then up (down first 256) 1024 else up 0 1024).bind' fun idx => pure (idx, typecnt)
 
 structure LoadCfg where
   /-- what the source's `Skip` answers when asked to skip past the end of the data:
@@ -421,8 +423,8 @@ def load (cfg : LoadCfg) (src : Bytes) : Ck LoadResult := do
   let bp := bp.drop (6 * hdr.typecnt)
   let trans : Array Transition := (List.zipWith (fun t i => ({ unixTime := t, typeIndex := i } : Transition)) times idxs).toArray
   let defaultType ← (if seenType0 ∧ hdr.timecnt ≠ 0 then do
-      let idx ← defaultTypeSearch types hdr.typecnt (idxs.headD 0)
-      pure (if idx ≠ hdr.typecnt then idx else 0)
+      let (idx, typecnt) ← defaultTypeSearch types hdr.typecnt (idxs.headD 0)
+      pure (if idx ≠ typecnt then idx else 0)
     else pure 0 : Ck Nat)
   let abbrs := bp.take hdr.charcnt
   -- footer
@@ -690,8 +692,8 @@ def convert (z : Zone) (hint : Nat) (cs : Fields) : Ck (Int × Nat) := do
 
 /-! ## NextTransition / PrevTransition -/
 
-def prevTypeIndex (z : Zone) (beginIdx i : Nat) : Ck Nat :=
-  if i = beginIdx then pure z.defaultType
+def prevTypeIndex (z : Zone) (_beginIdx i : Nat) : Ck Nat :=
+  if i = 0 then pure z.defaultType
   else do let t ← getTrans z (i - 1); pure t.typeIndex
 
 /-- `NextTransition(tp, &trans)`: `some (from, to)` or `none` -/
@@ -728,7 +730,7 @@ def prevTransition (z : Zone) (t : Int) : Ck (Option (Fields × Fields)) := do
     | fuel + 1 =>
       if i = beginIdx then pure i
       else do
-        let p ← (if i - 1 = beginIdx then pure z.defaultType
+        let p ← (if i - 1 = 0 then pure z.defaultType
                  else do let t2 ← getTrans z (i - 2); pure t2.typeIndex : Ck Nat)
         let tr ← getTrans z (i - 1)
         if !(← equivTransitions z p tr.typeIndex) then pure i else skip (i - 1) fuel
